@@ -99,8 +99,12 @@ def lin(e, name=None):
         inner = e[1][1]
         if inner[0] == "call" and inner[1] and ("Try>::branch" in inner[1]):
             inner = inner[2][0]
+        while inner[0] == "call" and inner[1] and re.search(r"Result::<T, E>::ok$|Option::<T>::ok_or(_else)?$", inner[1]) and inner[2]:
+            inner = inner[2][0]                 # `.ok()?` / `.ok_or(..)?`: the same payload in the other wrapper
         if inner[0] == "call" and inner[1] and (_ADD.search(inner[1]) or _SUB.search(inner[1])):
             return lin(inner, name)
+        if inner[0] == "call" and inner[1] and re.search(r"convert::TryFrom<.*>>::try_from$|convert::TryInto<.*>>::try_into$|convert::num::<impl core::convert::TryFrom<\w+> for \w+>::try_from$", inner[1]) and len(inner[2]) == 1:
+            return lin(inner[2][0], name)       # a checked integer conversion that succeeded is the value itself
     return (0, {expr_str(e, 120): 1})
 
 
